@@ -223,7 +223,7 @@ func TestC01(t *testing.T) {
 			if r.Kind == "use" {
 				app.Use(r.Pat, h)
 			} else {
-				app.Add([]string{r.Kind}, r.Pat, h)
+				app.Add(strings.Split(r.Kind, "+"), r.Pat, h)
 			}
 		}
 		obs := c01Obs{}
